@@ -333,6 +333,54 @@ pub fn run(ctx: &mut Ctx) {
         ctx.count("strings_of_utf16_lookalikes", 1);
         check(ctx, &v, "utf16-lookalike");
     });
+    // what is handed to CreateProcessW is the assembled line, NUL-terminated, unit for unit - however long it is (the
+    // operating system refuses lines beyond its limit; the library does not quietly shorten them)
+    if win_popen::HAS_NULLTERM {
+        let nlong = ctx.n(300, 6000);
+        ctx.family("buffer-for-CreateProcessW", nlong, |ctx, rng, i| {
+            let target = match i % 6 {
+                0 => rng.range(0, 200),
+                1 => rng.range(32_000, 32_760),
+                2 => 32_760 + rng.range(0, 16), // around the 32767 limit
+                3 => rng.range(32_776, 40_000),
+                4 => rng.range(60_000, 140_000),
+                _ => rng.range(200, 32_000),
+            } as usize;
+            let mut v = vec!["prog".to_string()];
+            let mut len = 4;
+            while len < target {
+                let l = (rng.range(0, 40) as usize).min(target - len);
+                let a: String = (0..l).map(|_| *rng.pick(&['a', 'b', ' ', '"', '\\', 'é', '𝄞'])).collect();
+                len += a.encode_utf16().count() + 3;
+                v.push(a);
+            }
+            let os: Vec<OsString> = v.iter().map(OsString::from).collect();
+            ctx.count("buffers_compared", 1);
+            if let Ok(Ok(c)) = std::panic::catch_unwind(|| win_popen::call_assemble_cmdline(os)) {
+                use crate::winshim::OsStrExt;
+                let units: Vec<u16> = c.encode_wide().collect();
+                let buf = win_popen::call_to_nullterm(&c);
+                ctx.max("longest_command_line_in_units", units.len() as i64);
+                let ok = buf.len() == units.len() + 1 && buf[..units.len()] == units[..] && buf[units.len()] == 0;
+                if !ok {
+                    ctx.violation(
+                        if buf.len() < units.len() + 1 { "C20/buffer-shorter-than-the-command-line" } else { "C20/buffer-differs-from-the-command-line" },
+                        &format!("the NUL-terminated buffer built for CreateProcessW has {} units, the assembled command line {} (+1): what the child would parse is not the argument vector", buf.len(), units.len()),
+                        J::obj().set("argc", J::i(v.len() as i64)).set("command_line_units", J::i(units.len() as i64)).set("buffer_units", J::i(buf.len() as i64)),
+                    );
+                } else {
+                    // and what that buffer holds parses back to the vector
+                    let text = String::from_utf16_lossy(&buf[..buf.len() - 1]);
+                    if parse_msvcrt(&text) != v {
+                        ctx.violation("C20/roundtrip/long", "a long command line does not parse back to the argument vector", J::obj().set("argc", J::i(v.len() as i64)));
+                    }
+                }
+            }
+            ctx.distinct(&format!("long|{}", target));
+        });
+    } else {
+        ctx.inconclusive("to_nullterm could not be extracted from /repo/src/win32.rs", J::Null);
+    }
     // NUL must be rejected, at every position class
     ctx.family("nul", 64, |ctx, rng, i| {
         let mut v: Vec<Vec<u8>> = vec![b"prog".to_vec()];
@@ -351,7 +399,11 @@ pub fn run(ctx: &mut Ctx) {
         use std::os::unix::ffi::OsStringExt;
         let os: Vec<OsString> = v.iter().map(|b| OsString::from_vec(b.clone())).collect();
         ctx.count("nul_vectors", 1);
-        match std::panic::catch_unwind(|| win_popen::call_assemble_cmdline(os)) {
+        let verdict = std::panic::catch_unwind(|| win_popen::call_assemble_cmdline(os));
+        // a rejected vector leaves nothing behind: the next command line assembled on this thread is its own
+        let next: Vec<String> = vec!["prog".to_string(), "a b".to_string(), String::new(), format!("n{}", i)];
+        check(ctx, &next, "after-a-rejected-vector");
+        match verdict {
             Ok(Err(_)) => ctx.count("nul_rejected", 1),
             Ok(Ok(c)) => ctx.violation(
                 "C20/nul-accepted",
